@@ -86,7 +86,15 @@ pub fn wire_fault(rng: &mut Rng, n_envs: usize, levels: usize) -> WireFault {
                 WireFault::RawPk { delta: rng.range(0, 16) as i32 - 8, cseed: rng.next_u64() }
             }
         }
-        _ => rng.pick(&[WireFault::ModelMade, WireFault::Dup, WireFault::Drop, WireFault::Chain { n: 8, adjust_pk: false }, WireFault::Chain { n: 7, adjust_pk: true }, WireFault::Chain { n: 2, adjust_pk: true }]).clone(),
+        _ => {
+            if rng.chance(1, 3) {
+                let lv = rng.range(1, 9) as usize;
+                let params: Vec<(u32, u32)> = (0..lv).map(|_| (*rng.pick(&[1u32, 2, 4, 8]), *rng.pick(&[5u32, 10, 15, 20, 25]))).collect();
+                WireFault::Synthetic { params, cseed: rng.next_u64(), adjust_pk: rng.chance(1, 2) }
+            } else {
+                rng.pick(&[WireFault::ModelMade, WireFault::Dup, WireFault::Drop, WireFault::Chain { n: 8, adjust_pk: false }, WireFault::Chain { n: 7, adjust_pk: true }, WireFault::Chain { n: 2, adjust_pk: true }]).clone()
+            }
+        }
     }
 }
 fn retarget(f: Field, l: u8) -> Field {
@@ -328,6 +336,25 @@ pub fn wire_total(ctx: &GenCtx, rng: &mut Rng, run: u64) -> Option<Plan> {
     for count in 0..=10u32 {
         for adjust_pk in [false, true] {
             plan.ops.push(Op::Deliver { env: 0, fault: WireFault::Chain { n: count, adjust_pk }, entry: ALL_ENTRIES[count as usize % 3] });
+        }
+    }
+    // structurally well-formed signatures for every uniform (w, h) list of 1, 2, 7, 8 and 9 levels — including
+    // heights 15..25, for which no real signature can be made — and for seeded mixed lists: every size and
+    // offset computation of the parsers runs with the largest values the type codes allow
+    {
+        let mut k = 0usize;
+        for lv in [1usize, 2, 7, 8, 9] {
+            for wv in [1u32, 2, 4, 8] {
+                for hv in [5u32, 10, 15, 20, 25] {
+                    k += 1;
+                    plan.ops.push(Op::Deliver { env: 0, fault: WireFault::Synthetic { params: vec![(wv, hv); lv], cseed: rng.next_u64(), adjust_pk: k % 2 == 0 }, entry: ALL_ENTRIES[k % 3] });
+                }
+            }
+        }
+        for i in 0..(if ctx.quick { 40 } else { 200 }) {
+            let lv = rng.range(1, 9) as usize;
+            let params: Vec<(u32, u32)> = (0..lv).map(|_| (*rng.pick(&[1u32, 2, 4, 8]), *rng.pick(&[5u32, 10, 15, 20, 25, 25]))).collect();
+            plan.ops.push(Op::Deliver { env: 0, fault: WireFault::Synthetic { params, cseed: rng.next_u64(), adjust_pk: i % 2 == 0 }, entry: ALL_ENTRIES[i % 3] });
         }
     }
     for h in PLAIN_HASHES {
